@@ -14,7 +14,7 @@ root's children are independent and are farmed out to a fork pool.
 import os
 
 from vf.runner import ToolError, h64, jsonable
-from vf import pysched
+from vf import pysched, sharedtable
 
 
 def children(x, prefix_len, used, bound):
@@ -41,13 +41,20 @@ class Result(object):
         self.with_pre = 0
         self.states = set()
         self.capped = False
+        self.pruned = 0
+        self.state_keys = 0
 
     def add(self, x, choices, used):
         self.execs += 1
         self.points += x.steps
+        self.state_keys += getattr(x, 'state_keys', 0)
         self.max_pre = max(self.max_pre, x.preemptions)
         if x.preemptions:
             self.with_pre += 1
+        if x.failure is not None and x.failure[0] == 'pruned':
+            self.execs -= 1
+            self.pruned += 1
+            return
         res = x.result or {}
         if x.failure is not None:
             self.failures += 1
@@ -66,6 +73,8 @@ class Result(object):
 
     def merge(self, other):
         self.execs += other.execs
+        self.pruned += other.pruned
+        self.state_keys += other.state_keys
         self.points += other.points
         self.failures += other.failures
         self.max_pre = max(self.max_pre, other.max_pre)
@@ -81,15 +90,18 @@ class Result(object):
                 self.violations[k] = v
 
 
-def subtree(scenario, prefix, used, bound, res, budget=None, parent=None):
-    """DFS below (and including) the execution selected by prefix."""
+def subtree(scenario, prefix, used, bound, res, budget=None, parent=None,
+            visited=None):
+    """DFS below (and including) the execution selected by prefix.
+    visited: dict shared by the whole DFS (state key -> budget left) or None
+    for plain stateless search."""
     stack = [(list(prefix), used, parent)]
     while stack:
         pre, u, par = stack.pop()
         if budget is not None and res.execs >= budget:
             res.capped = True
             return
-        x = scenario(pre, par)
+        x = scenario(pre, par, visited, bound)
         res.add(x, x.choices, u)
         sigs = [p[2] for p in x.points]
         for ch, cost in reversed(children(x, len(pre), u, bound)):
@@ -100,7 +112,7 @@ def confirm(scenario, choices, key):
     """Replay a failing schedule twice; both must fail identically."""
     seen = []
     for _ in range(2):
-        x = scenario(list(choices), None)
+        x = scenario(list(choices), None, None, 0)
         res = x.result or {}
         keys = sorted(k for k, _ in res.get('violations', ()))
         if x.failure is not None:
@@ -113,54 +125,171 @@ def confirm(scenario, choices, key):
     return key in seen[0][0]
 
 
-class _Task(object):
-    """Picklable subtree job: scenario factory name + params."""
-    def __init__(self, factory, params, bound, budget):
-        self.factory, self.params = factory, params
-        self.bound, self.budget = bound, budget
+_TABLE = [None]       # shared visited table, inherited by pool workers
+BATCH = 12            # executions per worker task before handing back
 
-    def __call__(self, ctx, task):
-        prefix, used, parent = task
-        scenario = self.factory(self.params)
+
+def _work(args):
+    """Pool task: a bounded piece of DFS; returns (Result, leftover stack)."""
+    factory, params, bound, memo, items = args
+    try:
+        scenario = factory(params)
+        if bound == 'confirm':
+            return confirm(scenario, items[0], items[1]), None, None
         res = Result()
-        subtree(scenario, prefix, used, self.bound, res, self.budget, parent)
-        ctx.extra['_res'] = [res]
+        stack = list(items)
+        n = 0
+        while stack and n < BATCH:
+            pre, u, par = stack.pop()
+            x = scenario(pre, par, _TABLE[0] if memo else None, bound)
+            res.add(x, x.choices, u)
+            n += 1
+            sigs = [p[2] for p in x.points]
+            for ch, cost in reversed(children(x, len(pre), u, bound)):
+                stack.append((ch, cost, sigs))
+        return res, stack, None
+    except BaseException as e:
+        import traceback
+        return None, None, '%r\n%s' % (e, traceback.format_exc())
 
 
-def explore(ctx, factory, params, bound, budget=None, label=''):
-    """Explore all schedules of factory(params) within the preemption bound.
-    Returns the merged Result; violations are confirmed by double replay
-    and reported on ctx with the schedule as the replayable case."""
-    scenario = factory(params)
-    res = Result()
-    root = scenario([], None)
-    res.add(root, root.choices, 0)
-    sigs = [p[2] for p in root.points]
-    kids = [(ch, cost, sigs) for ch, cost in children(root, 0, 0, bound)]
-    seed = ctx.seed
-    if seed:
-        import random
-        random.Random(seed).shuffle(kids)
-    sub = ctx.fork()
-    sub.pmap(_Task(factory, params, bound, budget), kids)
-    for r in sub.extra.get('_res', []):
-        res.merge(r)
-    for key in sorted(res.violations):
-        what, choices, outcome = res.violations[key]
-        if not confirm(scenario, choices, key):
-            raise pysched.Nondeterminism(
-                'violation %r vanished on replay of %r' % (key, choices))
-        ctx.violation('%s%s' % (label, key),
-                      '%s\nschedule (choice list): %r\noutcome: %s'
-                      % (what, choices, outcome),
-                      {'params': params, 'choices': choices, 'key': key})
-    ctx.count(res.execs)
-    ctx.traces += res.execs
-    ctx.transitions += res.points
-    ctx.states |= res.states
-    for o, n in res.outcomes.items():
-        ctx.outcome(label + o[:200], n)
-        ctx.note((label, o))
-    if res.capped:
-        ctx.cap('%sexecution budget %r reached' % (label, budget))
-    return res
+class Explorer(object):
+    """A pool of worker processes forked *before* any scenario has run, plus
+    the shared visited table they all prune against.
+
+    The parent never executes a scenario itself: scenario threads use OpenSSL
+    (RSA, AES), and a process forked while such a thread is still running its
+    exit handlers inherits OpenSSL's thread-init lock in the locked state and
+    hangs in its first RSA call (observed; see DESIGN.md)."""
+
+    def __init__(self, table_bits=23, memo=True):
+        import multiprocessing
+        import queue as _q
+        from vf import runner
+        self.memo = memo
+        self.table = sharedtable.SharedTable(table_bits) if memo else None
+        _TABLE[0] = self.table
+        self.jobs = 1 if os.environ.get('VERIF_SERIAL') else runner.JOBS
+        self.done = _q.Queue()
+        self.pool = None
+        if self.jobs > 1:
+            mp = multiprocessing.get_context('fork')
+            counter = mp.Value('i', 0)
+            self.pool = mp.Pool(self.jobs, initializer=runner._pin,
+                                initargs=(counter,))
+
+    def close(self):
+        if self.pool is not None:
+            self.pool.terminate()
+            self.pool.join()
+            self.pool = None
+        _TABLE[0] = None
+
+    def __enter__(self):
+        return self
+
+    def __exit__(self, *exc):
+        self.close()
+        return False
+
+    def call(self, args):
+        """Run one _work task synchronously (in a worker if there is one)."""
+        if self.pool is None:
+            out = _work(args)
+        else:
+            out = self.pool.apply(_work, (args,))
+        if out[2]:
+            raise ToolError('worker failed: %s' % out[2])
+        return out
+
+    def bound(self, ctx, factory, params, bound, max_execs):
+        """One complete exploration at one preemption bound."""
+        if self.table is not None:
+            self.table.clear()
+        res = Result()
+        pending = [([], 0, None)]
+        inflight = 0
+        first = True
+        while pending or inflight:
+            stop = bool(res.violations) or (
+                max_execs is not None and res.execs >= max_execs)
+            if stop:
+                if not res.violations and pending:
+                    res.capped = True
+                pending = []
+            if self.pool is None:
+                if not pending:
+                    break
+                r, pending, err = _work((factory, params, bound, self.memo,
+                                         pending))
+                if err:
+                    raise ToolError('worker failed: %s' % err)
+                res.merge(r)
+                continue
+            while pending and inflight < 3 * self.jobs:
+                k = max(1, min(4, len(pending) // (2 * self.jobs)))
+                items, pending = pending[-k:], pending[:-k]
+                self.pool.apply_async(
+                    _work, ((factory, params, bound, self.memo, items),),
+                    callback=self.done.put, error_callback=self.done.put)
+                inflight += 1
+            if not inflight:
+                break
+            got = self.done.get()
+            inflight -= 1
+            if isinstance(got, BaseException):
+                raise ToolError('worker failed: %r' % (got,))
+            r, left, err = got
+            if err:
+                raise ToolError('worker failed: %s' % err)
+            res.merge(r)
+            if first and ctx.seed:
+                import random
+                random.Random(ctx.seed).shuffle(left)
+            first = False
+            pending.extend(left)
+        return res
+
+    def explore(self, ctx, factory, params, bound, budget=None, label=''):
+        """Explore all schedules of factory(params), iterating the preemption
+        bound 0, 1, ..., bound (so the first counterexample found has the
+        fewest preemptions) and stopping at the first bound with a
+        violation.  Violations are confirmed by double replay and reported
+        on ctx with the schedule as the replayable case.  Returns the Result
+        of the last bound explored."""
+        res = None
+        for b in range(0, bound + 1):
+            res = self.bound(ctx, factory, params, b, budget)
+            ctx.count(res.execs)
+            ctx.traces += res.execs
+            ctx.transitions += res.points
+            if b == bound or res.violations:
+                ctx.states_extra += max(0, res.state_keys - res.pruned)
+            ctx.extra['states_hashed'] = ctx.extra.get('states_hashed', 0) \
+                + res.state_keys
+            ctx.extra['executions_cut_at_visited_state'] = ctx.extra.get(
+                'executions_cut_at_visited_state', 0) + res.pruned
+            if self.table is not None and self.table.full:
+                ctx.extra['visited_table_overflow'] = 1
+            if res.capped:
+                ctx.cap('%sbound %d: execution budget %r reached'
+                        % (label, b, budget))
+            if res.violations:
+                break
+        res.bound_reached = b
+        for key in sorted(res.violations):
+            what, choices, outcome = res.violations[key]
+            ok, _, _ = self.call((factory, params, 'confirm', False,
+                                  (choices, key)))
+            if not ok:
+                raise pysched.Nondeterminism(
+                    'violation %r vanished on replay of %r' % (key, choices))
+            ctx.violation('%s%s' % (label, key),
+                          '%s\nfound at preemption bound %d; schedule '
+                          '(choice list): %r\noutcome: %s'
+                          % (what, b, choices, outcome),
+                          {'params': params, 'choices': choices, 'key': key})
+        for o, n in res.outcomes.items():
+            ctx.outcome(label + o[:200], n)
+            ctx.note((label, o))
+        return res
